@@ -821,7 +821,11 @@ class C14(Prop):
     h = e[0]
 
     def seed():
+      # 0 is a seed like any other: about a third of the seeded objects of an expression get it
       ctx['n'] += 1
+      if (ctx['seed'] // 7 + ctx['n']) % 3 == 0:
+        ctx['zero'] = ctx.get('zero', 0) + 1
+        return 0
       return (ctx['seed'] * 1000003 + ctx['n'] * 7919) % (1 << 31)
 
     def nval(n):
@@ -1147,6 +1151,7 @@ class C14(Prop):
       _rec._merge_multi_choice = orig_mm          # pylint: disable=protected-access
     return {'spec': spec, 'pop': pop, 'pop_arg': pop_arg, 'before': before, 'ids': ids, 'log': log,
             'calls': calls, 'out': out, 'err': err, 'unseeded': unseeded, 'mm_paths': mm_paths,
+            'zero_seeds': ctx.get('zero', 0),
             'combos': combos}
 
   def canon_out(self, run):
@@ -1327,7 +1332,7 @@ class C14(Prop):
     has_oo = any(p not in MODEL_PRIMS for p in prims)
     return {'model': None if has_oo else model, 'obs': model, 'oracle': run['log'], 'checks': checks,
             'tainted': tainted, 'n_calls': len(run['calls']), 'n_draws': len(run['log']),
-            'mm_paths': run['mm_paths']}
+            'mm_paths': run['mm_paths'], 'zero_seeds': run.get('zero_seeds', 0)}
 
   # -- the driver level: pg.evolution.Evolution and the shipped algorithms ----------------------
   def build_algo(self, case, log):
@@ -1336,7 +1341,7 @@ class C14(Prop):
     import pyglove as pg
     a = case['algo']
     ctx = {'seed': case.get('seed', 0), 'log': log, 'n': 0}
-    sd = case.get('seed', 0) % (1 << 30)
+    sd = 0 if case.get('seed', 0) % 4 == 0 else case.get('seed', 0) % (1 << 30)      # seed 0 is first class
     if a[0] == 'evolution':
       rep = self.build_expr(a[1], ctx)
       upd = None if a[3] is None else self.build_expr(a[3], ctx)
@@ -1675,6 +1680,8 @@ class C14(Prop):
         h.append('spec:' + k)
     for p in sorted(set(all_prims(case))):
       h.append('prim:' + p)
+    if out.get('zero_seeds'):
+      h.append('operator-with-seed-0')
     if '"kinds"' in json.dumps(case['expr']) or '"valueLt"' in json.dumps(case['expr']) or '"indexEq"' in json.dumps(case['expr']) or '"valueEq"' in json.dumps(case['expr']):
       h.append('mutator-with-where-filter')
     for st in case.get('stages', []):
